@@ -59,9 +59,10 @@ def driver(d):
             {"a": "no", "c": [1, "no"], "e": 1, "u": "no"},
             {"m": {"type": 12}, "s": 1, "b": 2},
             {"w": 1, "a": 2, "c": [3]}]
-    refs = ["d.json#/x", "d.json", "d.json#", "d.json#/nope", "HTTP" + H[4:] + "d.json#/y", "e.json#/t",
+    refs = ["d.json#/x", "d.json", "d.json#", "d.json#/nope", "HTTP" + H[4:] + "d.json#/y", "HTTP" + H[4:] + "d.json",
+            "e.json#/t",
             "s.json#/t", META[d] + "#/properties", META[d]]
-    urls = [H + "d.json#/y", H + "e.json"]
+    urls = [H + "d.json#/y", H + "e.json", "HTTP" + H[4:] + "e.json"]
     return {"schema": S, "instances": inst, "refs": refs, "urls": urls}
 
 
@@ -325,7 +326,7 @@ class Model(object):
         ops = [("mode", "fail"), ("mode", "ok")]
         ops += [("validate", i) for i in range(len(drv["instances"]))]
         ops += [("resolve", i) for i in range(len(drv["refs"]))]
-        ops += [("resolving", 0), ("resolve_from_url", 0), ("resolve_from_url", 1)]
+        ops += [("resolving", 0), ("resolve_from_url", 0), ("resolve_from_url", 1), ("resolve_from_url", 2)]
         self.all_ops = ops
 
     def new_world(self):
